@@ -20,7 +20,7 @@ CAP = 3000
 
 
 def n_cases(tier):
-    return 1400 if tier == "quick" else 40000
+    return 1200 if tier == "quick" else 40000
 
 
 def timeout(tier):
